@@ -414,14 +414,14 @@ func ruleKRest(w *World, r *Report) {
 	}
 	// returns
 	for _, b := range get.Blocks {
-		ret, ok := b.Instrs[len(b.Instrs)-1].(*ssa.Return)
+		ret, ok := normalReturn(b)
 		if !ok || len(ret.Results) != 2 {
 			continue
 		}
-		v := strip(ret.Results[0])
+		v := strip(retVal(ret, 0))
 		switch {
 		case isNilConst(v):
-			if loadErr != nil && sameValue(ret.Results[1], loadErr) {
+			if loadErr != nil && sameValue(retVal(ret, 1), loadErr) {
 				r.ok("K-KEY", "return-error", w.instrPos(ret), "(nil, loader error)")
 			} else {
 				r.bad("K-KEY", "return-error", w.instrPos(ret), "nil value returned without the loader's error")
@@ -638,11 +638,11 @@ func ruleKRest(w *World, r *Report) {
 			}
 			// result: type-asserted and returned under err == nil
 			for _, b := range fn.Blocks {
-				ret, ok := b.Instrs[len(b.Instrs)-1].(*ssa.Return)
+				ret, ok := normalReturn(b)
 				if !ok || len(ret.Results) != 2 {
 					continue
 				}
-				if ta, ok := strip(ret.Results[0]).(*ssa.TypeAssert); ok {
+				if ta, ok := strip(retVal(ret, 0)).(*ssa.TypeAssert); ok {
 					if ex, ok := ta.X.(*ssa.Extract); ok && ex.Tuple == ssa.Value(c) && ex.Index == 0 {
 						r.ok("K-KEY", fnName(fn)+":result", w.instrPos(ret), "returns the cached value for the key")
 					} else {
@@ -709,6 +709,9 @@ func exprStr(v ssa.Value) string {
 		}
 	}
 	if c, ok := v.(*ssa.Const); ok {
+		if c.Value == nil {
+			return "nil"
+		}
 		return c.Value.String()
 	}
 	return v.Name()
@@ -895,12 +898,12 @@ func ruleKPre(w *World, r *Report) {
 						continue
 					}
 					for _, b := range caller.Blocks {
-						ret, ok := b.Instrs[len(b.Instrs)-1].(*ssa.Return)
+						ret, ok := normalReturn(b)
 						if !ok {
 							continue
 						}
 						if w.underNonNilTest(ex, b) || w.cellUnderNonNil(ex, b) {
-							last := ret.Results[len(ret.Results)-1]
+							last := retVal(ret, len(ret.Results)-1)
 							if w.nonNilByConstruction(last, b) {
 								found = true
 							}
